@@ -665,7 +665,22 @@ func isFreshError(v ssa.Value, d int) bool {
 	switch x := v.(type) {
 	case *ssa.Call:
 		k := CallKey(x.Common())
-		return k == "fmt.Errorf" || k == "errors.New" || strings.HasPrefix(k, "k8s.io/apimachinery/pkg/api/errors.New")
+		if k == "fmt.Errorf" || k == "errors.New" || strings.HasPrefix(k, "k8s.io/apimachinery/pkg/api/errors.New") {
+			return true
+		}
+		// a module helper whose only result is an error it builds itself on every return
+		if g := StaticFn(x.Common()); g != nil && isModuleFunc(g) && len(g.Blocks) > 0 && g.Signature.Results().Len() == 1 && isErrorType(g.Signature.Results().At(0).Type()) {
+			all := true
+			for _, b := range g.Blocks {
+				if rt, isR := b.Instrs[len(b.Instrs)-1].(*ssa.Return); isR {
+					if !isFreshError(rt.Results[0], d+1) {
+						all = false
+					}
+				}
+			}
+			return all
+		}
+		return false
 	case *ssa.Alloc:
 		return true
 	case *ssa.Phi:
